@@ -165,6 +165,8 @@ def main(argv):
         if m['counters'].get(name, 0) <= 0:
             m['inconclusive'].append('deciding monitor %r evaluated 0 times'
                                      % name)
+    if not m['samples']:
+        m['inconclusive'].append('no sample case was recorded')
     wall = time.time() - t0
     nontrivial = len(m['keys'])
     cov = {
